@@ -205,3 +205,14 @@ func TrimDump(d string, max int) string {
 	}
 	return d[:max] + "\n...[truncated]"
 }
+
+// QuietNow takes one stop-the-world snapshot and reports whether every goroutine other
+// than the caller is parked, and how many of them wait for a mutex. A single quiet
+// snapshot is already conclusive when no timers or external events are in play; it is
+// used by schedule controllers that must decide "everybody who can run has run" many
+// times per case. Verdicts (hangs) are always confirmed with AwaitQuiesce.
+func QuietNow() (quiet bool, mutexWaiters int) {
+	d := stacks()
+	q, sig := classify(d)
+	return q, strings.Count(sig, ":sync.Mutex.Lock:")
+}
